@@ -93,18 +93,22 @@ Fixpoint starts_with (p s : str) : bool :=
 
 Inductive tlit := TInt (x : bint) | TFloat | TMalformed | TOther.
 
-Definition bn_from_text (s : str) : tlit :=
+(* `checked` = the assertion after the pattern match tests the first capture (assert(neg ~= nil, ...), /repo d045c80) and so
+   fires on every failed match.  The earlier assert(int, ...) never fired: lpeglabel returns nil, 'fail', pos on a failed match
+   and the label is truthy. *)
+Definition bn_from_text_pol (checked : bool) (s : str) : tlit :=
   if has_prefix 98 66 s then
     match split_bin s with
-    | None => TMalformed   (* an error is raised: meant to be assert(int, 'malformed binary number'); in fact lpeglabel returns
-                              nil, 'fail', pos on a failed match, the label passes the assert and arithmetic on nil raises later *)
+    | None => TMalformed   (* an error is raised under both policies: 'malformed binary number' when checked, otherwise arithmetic
+                              on nil inside from() (tonumber('f', 2) of the label 'fail') *)
     | Some (neg, int, None, None) => match bn_from_bin neg int with Ok x => TInt x | Err _ => TMalformed end
     | Some _ => TOther                                     (* fraction / exponent: float code *)
     end
   else if has_prefix 120 88 s then
     match split_hex s with
-    | None => TOther   (* lpeglabel's failure label passes assert(int) and the failure position is a truthy `frac`: the code
-                          then tries tonumber(v) (which e.g. accepts trailing white space) and raises only if that fails: not modelled *)
+    | None => if checked then TMalformed   (* 'malformed hexadecimal number' *)
+              else TOther   (* the failure label passes assert(int) and the failure position is a truthy `frac`: the code
+                               then tries tonumber(v) (which e.g. accepts trailing white space) and raises only if that fails: not modelled *)
     | Some (neg, int, None, None) => match bn_from_hex neg int with Ok x => TInt x | Err _ => TMalformed end
     | Some _ => TFloat                                     (* n + 0.0: always a float *)
     end
@@ -122,3 +126,5 @@ Definition bn_from_text (s : str) : tlit :=
         end
       else TOther                                          (* tonumber(v): a float or malformed *)
   .
+
+Definition bn_from_text := bn_from_text_pol literal_match_checked.
